@@ -44,6 +44,23 @@ PROPS = {
                        "(decision, status, S3 code, bucket listing).",
         "assumptions": ["'formatted as an IP address' is read as 'parses under Go net.ParseIP' (the documented mechanism)"],
     },
+    "C02": {
+        "title": "Every operation sequence follows S3 bucket/object semantics on every backend",
+        "harness": "c02",
+        "model": "Model/Handlers.v step over Model/Mem.v (bucket map, sorted object map, put/get/head/delete/multi-delete/copy, ensureBucketExists/auto-bucket)",
+        "rule": "all operation sequences of length 3 (quick) / 4 (thorough) over an 18-symbol alphabet (create/delete bucket, put two bodies, "
+                "get, head, delete, multi-delete, copy incl. self-copy and cross-bucket copy, head bucket) on the memory backend with and "
+                "without auto-bucket, each followed by a probe (list buckets, list objects, get every key); plus seeded random sequences "
+                "of 40 (quick) / 60 (thorough) operations over 2 buckets x 4 keys x 3 bodies on all six backend instances with and "
+                "without auto-bucket. distinct_nontrivial = distinct sequences executed.",
+        "explanation": "Theorems: the modelled handlers satisfy the S3 laws for every reachable state and every operation sequence "
+                       "(read-your-writes, frame, idempotent delete, bucket lifecycle, copy). Tie: every response of every sequence "
+                       "(status, S3 code, body, ETag, bucket list, key list) produced by the Go handlers built from /repo is compared "
+                       "with the extracted model stepping through the same sequence; the same reference machine is used for all "
+                       "backends, so agreement with it is agreement between backends.",
+        "assumptions": ["fs backends are driven on the conflict-free key domain (no key is a path-prefix of another key)"],
+        "timeout": {"quick": 900, "thorough": 3000},
+    },
 }
 
 # properties whose check is not built yet are listed so the manifest stays honest
